@@ -423,11 +423,11 @@ class FiniteBifield:
             # Additional primitive polynomials for larger fields
             primitive_polys = {
                 11: 0b100000000101,  # x^11 + x^2 + 1
-                12: 0b1000000001101,  # x^12 + x^3 + x^2 + 1
+                12: 0b1000001010011,  # x^12 + x^6 + x^4 + x + 1
                 13: 0b10000000011011,  # x^13 + x^4 + x^3 + x + 1
-                14: 0b100000000010001,  # x^14 + x^5 + 1
-                15: 0b1000000000001011,  # x^15 + x + 1
-                16: 0b10000000000001011,  # x^16 + x^3 + x + 1
+                14: 0b100010001000011,  # x^14 + x^10 + x^6 + x + 1
+                15: 0b1000000000000011,  # x^15 + x + 1
+                16: 0b10001000000001011,  # x^16 + x^12 + x^3 + x + 1
             }
             self.modulus = BinaryPolynomial(primitive_polys[m])
         else:
@@ -512,8 +512,8 @@ class FiniteBifield:
             A primitive element (generator) of the field.
         """
         # For our implementation, the element 'x' (represented by value 2 or 0b10)
-        # is primitive when using the standard primitive polynomials
-        return self(0b10)
+        # is primitive when using the standard primitive polynomials; GF(2) has the single non-zero element 1
+        return self(0b10) if self.m > 1 else self(1)
 
     def get_all_elements(self) -> List["FiniteBifieldElement"]:
         """Get all elements of the field.
